@@ -556,6 +556,14 @@ func (repo *Repository) VerifyMerkleProof(ctx context.Context,
 		return -1, false, merkle_proof.ErrNotVerifiable
 	}
 
+	// The index must be a position in a tree of the depth given by the path. Higher bits are not
+	// used when calculating the merkle root so they would otherwise be ignored.
+	depth := uint(len(proof.Path) + len(proof.DuplicatedIndexes))
+	if proof.Index < 0 || (depth < 63 && proof.Index>>depth != 0) {
+		return -1, false, errors.Wrapf(merkle_proof.ErrBadIndex, "index %d, depth %d", proof.Index,
+			depth)
+	}
+
 	if err := proof.Verify(); err != nil {
 		return -1, false, errors.Wrap(err, "merkle proof")
 	}
